@@ -70,6 +70,10 @@ func (tps *TPS) SetShareData(shareData []byte) error {
 		return err
 	}
 
+	if len(tps.storedData.PublicKeys) < len(tps.parties) {
+		return fmt.Errorf("share data is malformed: %d public keys for %d parties", len(tps.storedData.PublicKeys), len(tps.parties))
+	}
+
 	tps.publicKeysOfParties = make(map[uint16][]byte)
 
 	for i, p := range tps.parties {
@@ -232,6 +236,11 @@ func (tps *TPS) OnMsg(msgBytes []byte, from uint16, _ bool) {
 			return
 		}
 
+		if len(sk.ys) != tps.pp.n {
+			tps.Logger.Warnf("Received share with %d components instead of %d from %d", len(sk.ys), tps.pp.n, from)
+			return
+		}
+
 		tps.sharesProcessed++
 		tps.shares[from] = *sk
 
@@ -251,9 +260,15 @@ func (tps *TPS) OnMsg(msgBytes []byte, from uint16, _ bool) {
 			return
 		}
 
-		if _, err := unmarshalPK(tps.pp.c, msgBytes[1:]); err != nil {
+		pk, err := unmarshalPK(tps.pp.c, msgBytes[1:])
+		if err != nil {
 			tps.Logger.Warnf("Public key %s of party %d is malformed: %v",
 				base64.StdEncoding.EncodeToString(msgBytes[1:]), from, err)
+			return
+		}
+
+		if len(pk.Y) != tps.pp.n {
+			tps.Logger.Warnf("Public key of party %d has %d components instead of %d", from, len(pk.Y), tps.pp.n)
 			return
 		}
 
